@@ -117,6 +117,11 @@ termination_by (fuel, 0, sizeOf ss)
 def goStmt (ver : String → Json) (fuel : Nat) (fs : Array Func) (st : Stmt) (acc : List Json)
     (k : List Json → Prog) : Prog :=
   match st with
+  | .q (.getSize p) =>
+    -- sizes of directories are platform specific: the DSL's get_size is `"dir" if is_dir(p) else get_size(p)`
+    .query (.isDir p) (fun a => match a with
+      | .ok (.bool true) => k (acc ++ [entryV (.str "dir")])
+      | _ => .query (.getSize p) (queryK acc k))
   | .q q => .query q (queryK acc k)
   | .raise tok => .raise (.user tok)
   | .write c => .write (match c with | some s => s | none => digest (render (.arr acc))) (k acc)
